@@ -5,31 +5,35 @@ From J5V.lib Require Import Outcome.
 From J5V.model Require Import Pipeline PipelineCorr.
 From J5V.gen Require SwaggerGen.
 From J5V.lib Require Strcase.
-From J5V.proofs Require Import PipelineProofs PipelineStrcaseProofs StrcaseProofs.
+From J5V.proofs Require Import PipelineProofs PipelineStrcaseProofs StrcaseProofs PipelineChainProofs.
 Import ListNotations.
 Local Open Scope N_scope.
 
-(* ---- the property at full strength --------------------------------------------------------
-   For every valid declared package P (any number of services and methods, any schema graph,
-   cyclic or not), the chain on what the compiler emits for P succeeds at every stage, the source
-   API and the client API list exactly the declared services and methods with the declared verb
-   and path, request properties are split by fill_request, the referenced schemas are exactly the
-   declared schemas reachable from the methods, and the OpenAPI conversion succeeds. *)
+(* ---- the property at full strength, for packages of services ----------------------------------
+   For every valid declared package P (any number of services and methods over the five verbs, with
+   or without response body, any schema graph, cyclic or not, every field type), the chain on what
+   the compiler emits for P succeeds at every stage; the source API and the client API list exactly
+   the declared services and methods with the declared verb and path; request properties are split
+   by fill_request (C16_request_partition says what that split is); the referenced schemas are
+   exactly the schemas reachable from the methods; the OpenAPI conversion succeeds.
+   Outside this statement (see the partial list in pylib/propcfg/C16.py): list methods (their walk is
+   C16_list_walk_terminates, not composed here), topics (C16_service_suffixes only), entities. *)
 Definition C16_full_statement : Prop :=
   forall (to_snake : str -> str) (P : decl_package), valid_package to_snake P ->
     let r := run_chain current_config (compile_image to_snake P) in
     exists ks,
-      cr_source r = Ok {| sa_services := map (fun s => declared_service
-                                                        {| ds_name := fst s; ds_methods := map df_decl (snd s) |})
-                                             (dp_services P);
-                          sa_topics := [] |}
+      cr_source r = Ok (declared_api P)
       /\ cr_client r = Ok (declared_clients P, ks)
       /\ (forall x, In x ks <->
-            present (im_schemas (compile_image to_snake P)) x /\
+            present (image_env to_snake P) x /\
             exists k, In k (flat_map method_roots (declared_clients P))
-                      /\ present (im_schemas (compile_image to_snake P)) k
-                      /\ reach (im_schemas (compile_image to_snake P)) k x)
+                      /\ present (image_env to_snake P) k
+                      /\ reach (image_env to_snake P) k x)
       /\ cr_swagger r = Ok tt.
+
+Theorem C16_full : C16_full_statement.
+Proof. exact chain_full. Qed.
+Print Assumptions C16_full.
 
 (* ---- source API: exactly the declared services and methods, declared verb and path ------- *)
 (* buildMethod on what the compiler emits for one method: accepted, verb and path recovered.
@@ -182,6 +186,59 @@ Example C16_example_method :
   /\ build_method (compile_method ex_snake d) = Ok (declared_src d)
   /\ sm_path (declared_src d) = bytes_of "/foo/:barId/sub".
 Proof. cbv zeta. split; [|split]; vm_compute; reflexivity. Qed.
+
+(* a valid package: a self-recursive object, a GET with a path parameter and a DELETE without response *)
+Definition ex_pkg : decl_package :=
+  let node := (bytes_of "p.v1", bytes_of "Node") in
+  {| dp_pkg := bytes_of "p.v1";
+     dp_services := [(bytes_of "Tree",
+        [{| df_name := bytes_of "GetNode"; df_verb := GET;
+            df_parts := [[]; bytes_of "node"; COLON :: bytes_of "nodeId"];
+            df_req := [{| p_json := bytes_of "nodeId"; p_ty := TScalar "key" |}; {| p_json := bytes_of "depth"; p_ty := TScalar "integer" |}];
+            df_resp := Some [{| p_json := bytes_of "node"; p_ty := TRef "object" node |}] |};
+         {| df_name := bytes_of "DropNode"; df_verb := DELETE;
+            df_parts := [[]; bytes_of "node"; COLON :: bytes_of "nodeId"];
+            df_req := [{| p_json := bytes_of "nodeId"; p_ty := TScalar "key" |}; {| p_json := bytes_of "when"; p_ty := TScalar "timestamp" |}];
+            df_resp := None |}])];
+     dp_schemas := [(node, SObject [{| p_json := bytes_of "children"; p_ty := TArray (TRef "object" node) |};
+                                    {| p_json := bytes_of "payload"; p_ty := TMap (TScalar "bytes") |}])] |}.
+
+Example C16_example_valid_package : valid_package ex_snake ex_pkg.
+Proof.
+  assert (Hd : forall props, props = [bytes_of "nodeId"; bytes_of "depth"] \/ props = [bytes_of "nodeId"; bytes_of "when"] ->
+               snake_inj ex_snake props /\ snake_ok ex_snake props).
+  { intros props [-> | ->]; split.
+    - intros n m [<-|[<-|[]]] [<-|[<-|[]]] E; try reflexivity; vm_compute in E; discriminate.
+    - intros n [<-|[<-|[]]]; split; vm_compute; intro H; repeat (destruct H as [H|H]; [discriminate|]); exact H.
+    - intros n m [<-|[<-|[]]] [<-|[<-|[]]] E; try reflexivity; vm_compute in E; discriminate.
+    - intros n [<-|[<-|[]]]; split; vm_compute; intro H; repeat (destruct H as [H|H]; [discriminate|]); exact H. }
+  assert (Hparts : forall props, In (bytes_of "nodeId") props ->
+            Forall (wf_part props) [[]; bytes_of "node"; COLON :: bytes_of "nodeId"]).
+  { intros props Hin.
+    apply Forall_cons; [|apply Forall_cons; [|apply Forall_cons; [|apply Forall_nil]]]; unfold wf_part.
+    - left. intros c [].
+    - left. intros c Hc. vm_compute in Hc. repeat (destruct Hc as [<-|Hc]; [repeat split; discriminate|]). contradiction.
+    - right. exists (bytes_of "nodeId"). split; [reflexivity|exact Hin]. }
+  assert (Hm : all_methods ex_pkg = snd (hd ([], []) (dp_services ex_pkg))) by reflexivity.
+  unfold valid_package. rewrite Hm. cbn [ex_pkg dp_services hd snd].
+  split.
+  - apply Forall_cons; [|apply Forall_cons; [|apply Forall_nil]]; unfold wf_decl;
+      cbn [df_decl dm_verb dm_parts dm_props map p_json df_verb df_parts df_req].
+    + split; [vm_compute; split; discriminate|]. split; [discriminate|]. split; [apply Hparts; left; reflexivity|].
+      apply Hd. left. reflexivity.
+    + split; [vm_compute; split; discriminate|]. split; [discriminate|]. split; [apply Hparts; left; reflexivity|].
+      apply Hd. right. reflexivity.
+  - split.
+    { cbn [map df_name]. apply NoDup_cons; [|apply NoDup_cons; [intros []|apply NoDup_nil]].
+      intros [H|[]]. vm_compute in H. discriminate. }
+    split; [apply Forall_cons; [vm_compute; reflexivity|apply Forall_cons; [vm_compute; reflexivity|apply Forall_nil]]|].
+    split; [vm_compute; reflexivity|].
+    split.
+    { unfold wf_env. apply Forall_forall. intros ks Hks. vm_compute in Hks.
+      repeat (destruct Hks as [<-|Hks]; [unfold wf_props; cbn [snd schema_props]; repeat (apply Forall_cons; [vm_compute; reflexivity|]); apply Forall_nil|]).
+      contradiction. }
+    intros k [<-|[]]. vm_compute. discriminate.
+Qed.
 
 Example C16_example_strcase :
   all_lower_camel [bytes_of "barId"; bytes_of "accountRef"]
